@@ -9,6 +9,11 @@
    equal; TLC checks that this is exactly {string: invalid UTF-8} and {omitempty
    collections: empty but not nil}, and prints the vector as a CASE for replay on
    the real port / engine / component checkpoints.                               *)
+(* container classes: zero value; empty / part / full built by filling only;
+   "interrupted" = internal cursors away from their freshly-filled position (Buffer
+   after pops and UpdateFront, Pipeline with items in flight at several stages and
+   dwell counts left, LRU set after Evict handed out ways not visited again);
+   "drained" = emptied through the container's own operations.                    *)
 EXTENDS JsonSem, TLC, Json
 
 CONSTANT MaxDev
@@ -23,7 +28,7 @@ Classes(c) == CASE c = "int"       -> {"zero", "one", "max", "min"}
                 [] c = "slice"     -> {"nil", "empty", "one", "two"}
                 [] c = "map"       -> {"nil", "empty", "one", "two"}
                 [] c = "bool"      -> {"false", "true"}
-                [] c = "container" -> {"zero", "empty", "part", "full"}
+                [] c = "container" -> {"zero", "empty", "part", "full", "interrupted", "drained"}
 BaseVec == [c \in Coords |-> CASE c = "string" -> "ascii" [] c = "bool" -> "true" [] c = "container" -> "part" [] OTHER -> "one"]
 
 Init == vec = BaseVec /\ dev = 0
